@@ -2606,6 +2606,10 @@ class AggregateBase(UnitsManaged, Saveable, OpenSystem):
             for i in range(start, dim):
                 ens[i-start] = numpy.real(HH[i,i] - subtract[i-start])
 
+            # Boltzmann factors relative to the lowest level; otherwise
+            # all of them underflow at low temperature and we get 0/0
+            ens = ens - numpy.amin(ens)
+
             ne = numpy.exp(-ens/kBT)
             sne = numpy.sum(ne)
             rho0_diag = ne/sne
